@@ -450,8 +450,31 @@ def report():
     print("\n".join(lines[:12]))
 
 
+def run_one(site_id, checks):
+    """Apply one site and run the given checks with the full quick tier (16 shards)."""
+    sites = {s["id"]: s for s in json.loads((OUT / "sites.json").read_text())}
+    s = sites[site_id]
+    wt = _mk_worktree(900)
+    out = SCRATCH / "out900"
+    env = dict(os.environ, VERIF_REPO=str(wt), VZ_OUT=str(out), VZ_NO_SHRINK="1", PYTHONHASHSEED="0")
+    try:
+        _apply(wt, s)
+        print(f"{s['file']}:{s['line']} {s['kind']} {s['old']!r} -> {s['new']!r}")
+        for cid in checks:
+            r = subprocess.run([str(VERIF / "check"), cid, "--tier", "quick"], cwd=VERIF, env=env,
+                               capture_output=True, text=True)
+            lines = [ln for ln in (r.stdout + r.stderr).split("\n") if "violated:" in ln or ln.startswith("[C")]
+            print(f"  {cid}: exit {r.returncode}  " + " | ".join(x.strip()[:160] for x in lines[:2]))
+    finally:
+        _rm_worktree(wt)
+        shutil.rmtree(out, ignore_errors=True)
+
+
 if __name__ == "__main__":
     cmd = sys.argv[1] if len(sys.argv) > 1 else "report"
+    if cmd == "one":
+        run_one(sys.argv[2], sys.argv[3:])
+        sys.exit(0)
     if cmd == "enumerate":
         enumerate_sites()
     elif cmd == "tests":
